@@ -244,15 +244,17 @@ def _on_all_normal_paths(g: cfgmod.CFG, n: int) -> bool:
 def _inline_helpers(fn: ast.FunctionDef, lookup, skip: frozenset = frozenset()) -> ast.FunctionDef:
     """Copy of fn in which (one level of) statement-level calls `self.h(...)` of a helper method h of the same class
     are replaced by h's body (parameters bound, helper locals renamed), and `for c in (self.a, self.b): c()` loops over
-    a literal tuple of bound methods are unrolled.  Helpers that return a value, contain nested defs or reassign a
-    parameter are left alone.  The analysed structure is then the same whether or not a helper was extracted."""
+    a literal tuple of bound methods are unrolled.  Also `x = self.h(...)` with a plain local target.  Early / valued
+    returns of the helper (outside its loops) are expressed as `while True: ...; break` so that no spurious path is
+    added.  Helpers that contain nested defs, return from inside a loop or reassign a parameter are left alone.  The
+    analysed structure is then the same whether or not a helper was extracted."""
     import copy
 
     def params_of(h: ast.FunctionDef) -> list[str]:
         ps = [a.arg for a in h.args.posonlyargs + h.args.args]
         return ps[1:] if ps and ps[0] in ("self", "cls") else ps
 
-    def helper_body(call: ast.Call) -> Optional[list]:
+    def helper_body(call: ast.Call, target: Optional[str] = None) -> Optional[list]:
         f = call.func
         if not (isinstance(f, ast.Attribute) and isinstance(f.value, ast.Name) and f.value.id == "self"):
             return None
@@ -263,11 +265,18 @@ def _inline_helpers(fn: ast.FunctionDef, lookup, skip: frozenset = frozenset()) 
                                           and isinstance(s.value.value, str))]
         if body and isinstance(body[-1], ast.Return) and body[-1].value is None:
             body = body[:-1]
+        has_return = False
         for s in body:
             for n in walk_local(s):
-                if isinstance(n, (ast.Return, ast.Yield, ast.YieldFrom, ast.FunctionDef, ast.AsyncFunctionDef, ast.Lambda,
+                if isinstance(n, (ast.Yield, ast.YieldFrom, ast.FunctionDef, ast.AsyncFunctionDef, ast.Lambda,
                                   ast.Global, ast.Nonlocal, ast.ClassDef)):
                     return None
+                if isinstance(n, (ast.For, ast.AsyncFor, ast.While)) and any(isinstance(x, ast.Return) for x in walk_local(n)):
+                    return None  # a return inside a loop cannot be expressed as a break of the wrapper
+                if isinstance(n, ast.Return):
+                    has_return = True
+        if target is not None and not has_return:
+            return None  # `x = self.h()` of a helper that returns nothing: leave it alone
         ps = params_of(h)
         if any(isinstance(a, ast.Starred) for a in call.args) or any(k.arg is None for k in call.keywords) \
                 or len(call.args) > len(ps):
@@ -298,7 +307,33 @@ def _inline_helpers(fn: ast.FunctionDef, lookup, skip: frozenset = frozenset()) 
                     return ast.copy_location(copy.deepcopy(m[n.id]), n)
                 return n
 
-        return [ast.fix_missing_locations(T().visit(copy.deepcopy(s))) for s in body]
+            def visit_Return(self, n: ast.Return):
+                out = []
+                if n.value is not None:
+                    val = self.visit(n.value)
+                    if target is not None:
+                        out.append(ast.copy_location(ast.Assign(targets=[ast.Name(id=target, ctx=ast.Store())], value=val), n))
+                    else:
+                        out.append(ast.copy_location(ast.Expr(value=val), n))
+                elif target is not None:
+                    out.append(ast.copy_location(ast.Assign(targets=[ast.Name(id=target, ctx=ast.Store())],
+                                                            value=ast.Constant(value=None)), n))
+                out.append(ast.copy_location(ast.Break(), n))
+                return out
+
+        new_body = []
+        for s in body:
+            r = T().visit(copy.deepcopy(s))
+            new_body += r if isinstance(r, list) else [r]
+        if has_return:
+            anchor = body[0]
+            tail = []
+            if target is not None and not isinstance(body[-1], ast.Return):
+                tail.append(ast.copy_location(ast.Assign(targets=[ast.Name(id=target, ctx=ast.Store())],
+                                                         value=ast.Constant(value=None)), anchor))
+            tail.append(ast.copy_location(ast.Break(), body[-1]))
+            new_body = [ast.copy_location(ast.While(test=ast.Constant(value=True), body=new_body + tail, orelse=[]), anchor)]
+        return [ast.fix_missing_locations(x) for x in new_body]
 
     def unrolled(s: ast.For) -> Optional[list]:
         if not (isinstance(s.target, ast.Name) and isinstance(s.iter, (ast.Tuple, ast.List)) and s.iter.elts and not s.orelse):
@@ -330,6 +365,13 @@ def _inline_helpers(fn: ast.FunctionDef, lookup, skip: frozenset = frozenset()) 
                 if b is not None:
                     out += rewrite(b, depth + 1)  # unroll loops inside, but do not inline a second level
                     continue
+            if isinstance(s, (ast.Assign, ast.AnnAssign)) and isinstance(s.value, ast.Call) and depth == 0:
+                tg = s.targets[0] if isinstance(s, ast.Assign) and len(s.targets) == 1 else getattr(s, "target", None)
+                if isinstance(tg, ast.Name):
+                    b = helper_body(s.value, target=tg.id)
+                    if b is not None:
+                        out += rewrite(b, depth + 1)
+                        continue
             if not isinstance(s, (ast.FunctionDef, ast.AsyncFunctionDef, ast.ClassDef)):
                 for field in ("body", "orelse", "finalbody"):
                     v = getattr(s, field, None)
@@ -860,8 +902,9 @@ def _rule_counters_and_loop(ctx: Ctx, mod, meths: dict, rec: dict) -> None:
     gg = cfgmod.build(f)
     calls = _call_nodes(gg, lambda c: call_name(c) == "compute_time_step")
     good = [n for n, c in calls if (kwarg(c, "iterations") is not None or c.args) and not _truthy(kwarg(c, "recompute_solution"))]
-    tm_names = ["self.time_manager"] + [t.id for s_ in walk_local(f) if isinstance(s_, ast.Assign) and u(s_.value) == "self.time_manager"
-                                        for t in s_.targets if isinstance(t, ast.Name)]
+    tm_names = ["self.time_manager"] + [t.id for s_ in walk_local(f) if isinstance(s_, (ast.Assign, ast.AnnAssign))
+                                        and s_.value is not None and u(s_.value) == "self.time_manager"
+                                        for t in assigned_targets(s_) if isinstance(t, ast.Name)]
     leak = _reach(gg, {f"{nm}.is_constant": False for nm in tm_names}, avoid=frozenset(good))
     ctx.check("R4", bool(good) and cfgmod.EXIT not in leak, sol, "SolutionStrategy.after_nonlinear_convergence", f,
               "after a converged step with adaptive stepping compute_time_step(iterations=...) must be reached on every "
